@@ -377,3 +377,360 @@ package collection
 //@     invariant snap(iterator) == old(view(values)) && 0 <= pos(iterator) && pos(iterator) <= len(snap(iterator))
 //@     invariant forall j :: 0 <= j && j < pos(iterator) ==> lmem(view(this), old(view(values))[j])
 //@     decreases len(snap(iterator)) - pos(iterator)
+
+// ---------------------------------------------------------------- stack_ (C13)
+
+//@ model capacity Int
+
+//@ type *stackClass_
+//@   hypothesis this.defaultCapacity_ >= 1
+//@ type *stack_
+//@   view view(this.values_)
+//@   modelfield capacity this.capacity_
+//@   invariant this.class_ != nil && this.values_ != nil
+//@   invariant[C13] 1 <= this.capacity_ && len(view(this.values_)) <= this.capacity_
+
+//@ iface StackClassLike.Notation
+//@   nopanic
+//@ iface StackClassLike.Make
+//@   nopanic
+//@   ensures fresh(result) && result != nil && view(result) == empty() && capacity(result) >= 1
+//@ iface StackClassLike.MakeWithCapacity
+//@   ensures capacity >= 1 && fresh(result) && result != nil && view(result) == empty() && capacity(result) == capacity
+//@   xensures capacity < 1
+//@ iface StackClassLike.MakeFromArray
+//@   nopanic
+//@   ensures fresh(result) && result != nil && view(result) == view(values) && len(view(result)) <= capacity(result)
+//@ iface StackClassLike.MakeFromSequence
+//@   nopanic
+//@   ensures fresh(result) && result != nil && view(result) == view(values) && len(view(result)) <= capacity(result)
+
+//@ iface StackLike.GetCapacity
+//@   nopanic
+//@   ensures result == capacity(this) && result >= 1
+//@ iface StackLike.AddValue
+//@   let n := len(view(this))
+//@   modifies view(this)
+//@   ensures[C13] n < capacity(this) && view(this) == insert(old(view(this)), 0, value)
+//@   xensures[C13] n >= capacity(this) && view(this) == old(view(this))
+//@ iface StackLike.RemoveTop
+//@   let n := len(view(this))
+//@   modifies view(this)
+//@   ensures[C13] n > 0 && result == old(view(this))[0] && view(this) == remove(old(view(this)), 0)
+//@   xensures[C13] n == 0 && view(this) == old(view(this))
+//@ iface StackLike.RemoveAll
+//@   nopanic
+//@   modifies view(this)
+//@   ensures view(this) == empty()
+
+//@ func (*stackClass_).Make
+//@   props C13
+//@   implements StackClassLike.Make
+//@   ensures inv(stack_, result)
+//@ func (*stackClass_).MakeWithCapacity
+//@   props C13
+//@   implements StackClassLike.MakeWithCapacity
+//@   ensures inv(stack_, result)
+//@ func (*stackClass_).MakeFromArray
+//@   props C13 C18
+//@   implements StackClassLike.MakeFromArray
+//@   ensures[C13] inv(stack_, result)
+//@ func (*stackClass_).MakeFromSequence
+//@   props C13 C18
+//@   implements StackClassLike.MakeFromSequence
+//@   ensures[C13] inv(stack_, result)
+//@ func (*stack_).GetCapacity
+//@   props C13
+//@   implements StackLike.GetCapacity
+//@ func (*stack_).AddValue
+//@   props C13
+//@   implements StackLike.AddValue
+//@ func (*stack_).RemoveTop
+//@   props C13
+//@   implements StackLike.RemoveTop
+//@ func (*stack_).RemoveAll
+//@   props C13
+//@   implements StackLike.RemoveAll
+//@ func (*stack_).IsEmpty
+//@   props C13
+//@   implements Sequential.IsEmpty
+//@ func (*stack_).GetSize
+//@   props C13
+//@   implements Sequential.GetSize
+//@ func (*stack_).AsArray
+//@   props C13 C18
+//@   implements Sequential.AsArray
+//@ func (*stack_).GetIterator
+//@   props C13 C17 C18
+//@   implements Sequential.GetIterator
+
+// ---------------------------------------------------------------- set_ (C02, C15)
+
+//@ model collator U
+
+// rank(c, a, b) is the collator's ranking: 0 Lesser, 1 Equal, 2 Greater.
+//@ define sorted(c, s) := forall i, j :: 0 <= i && i < j && j < len(s) ==> rank(c, s[i], s[j]) == 0
+//@ define preorder(c) := (forall a U :: rank(c, a, a) == 1) && (forall a, b U :: rank(c, a, b) == 2 - rank(c, b, a)) && (forall a, b, d U :: rank(c, a, b) <= 1 && rank(c, b, d) <= 1 ==> rank(c, a, d) <= 1)
+
+// smem(c, s, x): some element of s ranks Equal to x under c; swit is its Skolem witness.
+//@ declare smem(U, Seq, U) Bool
+//@ declare swit(U, Seq, U) Int
+//@ axiom smem_elim: forall c U, s Seq, x U :: smem(c, s, x) ==> 0 <= swit(c, s, x) && swit(c, s, x) < len(s) && rank(c, x, s[swit(c, s, x)]) == 1
+//@ axiom smem_intro: forall c U, s Seq, x U, i Int :: 0 <= i && i < len(s) && rank(c, x, s[i]) == 1 ==> smem(c, s, x)
+
+//@ lemma[C02,C15] smem_insert: forall c U, s Seq, k Int, x U, y U :: 0 <= k && k <= len(s) ==> (smem(c, insert(s, k, x), y) <==> smem(c, s, y) || rank(c, y, x) == 1)
+//@ lemma[C02,C15] smem_remove: forall c U, s Seq, k Int, y U :: 0 <= k && k < len(s) ==> (smem(c, remove(s, k), y) ==> smem(c, s, y)) && (smem(c, s, y) && rank(c, y, s[k]) != 1 ==> smem(c, remove(s, k), y))
+
+//@ type *set_
+//@   view view(this.values_)
+//@   modelfield collator this.collator_
+//@   invariant this.class_ != nil && this.values_ != nil && this.collator_ != nil
+//@   invariant[C02,C15] sorted(this.collator_, view(this.values_))
+//@   hypothesis preorder(this.collator_)
+
+//@ func (*set_).findIndex
+//@   props C02 C15
+//@   nopanic
+//@   let n := len(view(this))
+//@   let c := this.collator_
+//@   ensures result.1 ==> 1 <= result.0 && result.0 <= n && rank(c, value, view(this)[result.0 - 1]) == 1
+//@   ensures !result.1 ==> 0 <= result.0 && result.0 <= n
+//@   ensures !result.1 ==> (forall i :: 0 <= i && i < result.0 ==> rank(c, value, view(this)[i]) == 2)
+//@   ensures !result.1 ==> (forall i :: result.0 <= i && i < n ==> rank(c, value, view(this)[i]) == 0)
+//@   loop 1:
+//@     invariant 1 <= first && last <= n && size == last - first + 1 && size >= 0
+//@     invariant forall i :: 0 <= i && i < first - 1 ==> rank(c, value, view(this)[i]) == 2
+//@     invariant forall i :: last <= i && i < n ==> rank(c, value, view(this)[i]) == 0
+//@     decreases size
+
+//@ iface SetLike.GetCollator
+//@   nopanic
+//@   ensures result == collator(this) && result != nil
+//@ iface SetLike.AddValue
+//@   let n := len(view(this))
+//@   let c := collator(this)
+//@   nopanic
+//@   modifies view(this)
+//@   ensures[C02] smem(c, old(view(this)), value) ==> view(this) == old(view(this))
+//@   ensures[C02] !smem(c, old(view(this)), value) ==> (exists k :: 0 <= k && k <= n && view(this) == insert(old(view(this)), k, value))
+//@   ensures[C02,C15] forall y U :: smem(c, view(this), y) <==> smem(c, old(view(this)), y) || rank(c, y, value) == 1
+//@   ensures[C02,C15] sorted(c, view(this))
+//@ iface SetLike.RemoveValue
+//@   let n := len(view(this))
+//@   let c := collator(this)
+//@   nopanic
+//@   modifies view(this)
+//@   ensures[C02] !smem(c, old(view(this)), value) ==> view(this) == old(view(this))
+//@   ensures[C02] smem(c, old(view(this)), value) ==> (exists k :: 0 <= k && k < n && rank(c, value, old(view(this))[k]) == 1 && view(this) == remove(old(view(this)), k))
+//@   ensures[C02,C15] forall y U :: smem(c, view(this), y) <==> smem(c, old(view(this)), y) && rank(c, y, value) != 1
+//@   ensures[C02,C15] sorted(c, view(this))
+//@ iface SetLike.RemoveAll
+//@   nopanic
+//@   modifies view(this)
+//@   ensures view(this) == empty()
+//@ iface SetLike.ContainsValue
+//@   nopanic
+//@   ensures[C02] result <==> smem(collator(this), view(this), value)
+//@ iface SetLike.GetIndex
+//@   let n := len(view(this))
+//@   nopanic
+//@   ensures[C02] 0 <= result && result <= n
+//@   ensures[C02] result == 0 ==> !smem(collator(this), view(this), value)
+//@   ensures[C02] result != 0 ==> rank(collator(this), value, view(this)[result - 1]) == 1
+
+//@ func (*set_).GetCollator
+//@   props C02 C15
+//@   implements SetLike.GetCollator
+//@ func (*set_).AddValue
+//@   props C02 C15
+//@   implements SetLike.AddValue
+//@   uses smem_insert
+//@   ensures this.values_ == old(this.values_)
+//@ func (*set_).RemoveValue
+//@   props C02 C15
+//@   implements SetLike.RemoveValue
+//@   uses smem_remove
+//@   ensures this.values_ == old(this.values_)
+//@ func (*set_).RemoveAll
+//@   props C02
+//@   implements SetLike.RemoveAll
+//@ func (*set_).ContainsValue
+//@   props C02 C15
+//@   implements SetLike.ContainsValue
+//@ func (*set_).GetIndex
+//@   props C02
+//@   implements SetLike.GetIndex
+//@ func (*set_).GetValue
+//@   props C02
+//@   implements Accessible.GetValue
+//@ func (*set_).GetValues
+//@   props C02 C18
+//@   implements Accessible.GetValues
+//@ func (*set_).IsEmpty
+//@   props C02
+//@   implements Sequential.IsEmpty
+//@ func (*set_).GetSize
+//@   props C02
+//@   implements Sequential.GetSize
+//@ func (*set_).AsArray
+//@   props C02 C18
+//@   implements Sequential.AsArray
+//@ func (*set_).GetIterator
+//@   props C02 C17 C18
+//@   implements Sequential.GetIterator
+
+//@ lemma[C02,C15] smem_snoc: forall c U, s Seq, p Int, y U :: 0 <= p && p < len(s) ==> (smem(c, s[0:p+1], y) <==> smem(c, s[0:p], y) || rank(c, y, s[p]) == 1)
+//@ lemma[C02,C15] smem_take_all: forall c U, s Seq, y U :: smem(c, s[0:len(s)], y) <==> smem(c, s, y)
+//@ lemma[C02,C15] smem_take_none: forall c U, s Seq, y U :: !smem(c, s[0:0], y)
+//@ lemma[C02,C15] smem_empty: forall c U, y U :: !smem(c, empty(), y)
+
+//@ iface SetLike.AddValues
+//@   let c := collator(this)
+//@   nopanic
+//@   modifies view(this)
+//@   ensures[C02,C15] forall y U :: smem(c, view(this), y) <==> smem(c, old(view(this)), y) || smem(c, old(view(values)), y)
+//@   ensures[C02,C15] sorted(c, view(this))
+//@ iface SetLike.RemoveValues
+//@   let c := collator(this)
+//@   nopanic
+//@   modifies view(this)
+//@   ensures[C02,C15] forall y U :: smem(c, view(this), y) <==> smem(c, old(view(this)), y) && !smem(c, old(view(values)), y)
+//@   ensures[C02,C15] sorted(c, view(this))
+//@ iface SetLike.ContainsAny
+//@   nopanic
+//@   ensures[C02] result <==> (exists j :: 0 <= j && j < len(view(values)) && smem(collator(this), view(this), view(values)[j]))
+//@ iface SetLike.ContainsAll
+//@   nopanic
+//@   ensures[C02] result <==> (forall j :: 0 <= j && j < len(view(values)) ==> smem(collator(this), view(this), view(values)[j]))
+
+//@ func (*set_).AddValues
+//@   props C02 C15 C18
+//@   implements SetLike.AddValues
+//@   uses smem_snoc, smem_take_all, smem_take_none
+//@   let c := this.collator_
+//@   loop 1:
+//@     invariant snap(iterator) == old(view(values)) && 0 <= pos(iterator) && pos(iterator) <= len(snap(iterator)) && this.collator_ == c
+//@     invariant forall y U :: smem(c, view(this), y) <==> smem(c, old(view(this)), y) || smem(c, old(view(values))[0:pos(iterator)], y)
+//@     invariant this.values_ == old(this.values_) && this.class_ != nil && this.values_ != nil && this.collator_ != nil
+//@     invariant sorted(this.collator_, view(this.values_))
+//@     invariant unchanged(view, old(this.values_))
+//@     decreases len(snap(iterator)) - pos(iterator)
+//@ func (*set_).RemoveValues
+//@   props C02 C15 C18
+//@   implements SetLike.RemoveValues
+//@   uses smem_snoc, smem_take_all, smem_take_none
+//@   let c := this.collator_
+//@   loop 1:
+//@     invariant snap(iterator) == old(view(values)) && 0 <= pos(iterator) && pos(iterator) <= len(snap(iterator)) && this.collator_ == c
+//@     invariant forall y U :: smem(c, view(this), y) <==> smem(c, old(view(this)), y) && !smem(c, old(view(values))[0:pos(iterator)], y)
+//@     invariant this.values_ == old(this.values_) && this.class_ != nil && this.values_ != nil && this.collator_ != nil
+//@     invariant sorted(this.collator_, view(this.values_))
+//@     invariant unchanged(view, old(this.values_))
+//@     decreases len(snap(iterator)) - pos(iterator)
+//@ func (*set_).ContainsAny
+//@   props C02
+//@   implements SetLike.ContainsAny
+//@   loop 1:
+//@     invariant snap(iterator) == old(view(values)) && 0 <= pos(iterator) && pos(iterator) <= len(snap(iterator))
+//@     invariant forall j :: 0 <= j && j < pos(iterator) ==> !smem(this.collator_, view(this), old(view(values))[j])
+//@     decreases len(snap(iterator)) - pos(iterator)
+//@ func (*set_).ContainsAll
+//@   props C02
+//@   implements SetLike.ContainsAll
+//@   loop 1:
+//@     invariant snap(iterator) == old(view(values)) && 0 <= pos(iterator) && pos(iterator) <= len(snap(iterator))
+//@     invariant forall j :: 0 <= j && j < pos(iterator) ==> smem(this.collator_, view(this), old(view(values))[j])
+//@     decreases len(snap(iterator)) - pos(iterator)
+
+// ---------------------------------------------------------------- set constructors and set algebra (C02, C15)
+
+//@ lemma[C02,C15] smem_equiv: forall c U, s Seq, x U, y U :: preorder(c) && rank(c, y, x) == 1 ==> (smem(c, s, y) <==> smem(c, s, x))
+
+//@ iface SetClassLike.Notation
+//@   nopanic
+//@ iface SetClassLike.Make
+//@   nopanic
+//@   ensures fresh(result) && result != nil && view(result) == empty() && collator(result) != nil
+//@ iface SetClassLike.MakeWithCollator
+//@   nopanic
+//@   ensures fresh(result) && result != nil && view(result) == empty() && collator(result) == collator
+//@ iface SetClassLike.MakeFromArray
+//@   nopanic
+//@   ensures fresh(result) && result != nil && collator(result) != nil && sorted(collator(result), view(result))
+//@   ensures[C02] forall y U :: smem(collator(result), view(result), y) <==> smem(collator(result), view(values), y)
+//@ iface SetClassLike.MakeFromSequence
+//@   nopanic
+//@   ensures fresh(result) && result != nil && collator(result) != nil && sorted(collator(result), view(result))
+//@   ensures[C02] forall y U :: smem(collator(result), view(result), y) <==> smem(collator(result), view(values), y)
+
+//@ iface SetClassLike.And
+//@   let c := collator(first)
+//@   requires collator(first) == collator(second) && preorder(collator(first))
+//@   nopanic
+//@   ensures[C15] fresh(result) && result != nil && collator(result) == c && sorted(c, view(result))
+//@   ensures[C15] forall y U :: smem(c, view(result), y) <==> smem(c, view(first), y) && smem(c, view(second), y)
+//@   ensures[C15] view(first) == old(view(first)) && view(second) == old(view(second))
+//@ iface SetClassLike.Or
+//@   let c := collator(first)
+//@   requires collator(first) == collator(second) && preorder(collator(first))
+//@   nopanic
+//@   ensures[C15] fresh(result) && result != nil && collator(result) == c && sorted(c, view(result))
+//@   ensures[C15] forall y U :: smem(c, view(result), y) <==> smem(c, view(first), y) || smem(c, view(second), y)
+//@   ensures[C15] view(first) == old(view(first)) && view(second) == old(view(second))
+//@ iface SetClassLike.Sans
+//@   let c := collator(first)
+//@   requires collator(first) == collator(second) && preorder(collator(first))
+//@   nopanic
+//@   ensures[C15] fresh(result) && result != nil && collator(result) == c && sorted(c, view(result))
+//@   ensures[C15] forall y U :: smem(c, view(result), y) <==> smem(c, view(first), y) && !smem(c, view(second), y)
+//@   ensures[C15] view(first) == old(view(first)) && view(second) == old(view(second))
+//@ iface SetClassLike.Xor
+//@   let c := collator(first)
+//@   requires collator(first) == collator(second) && preorder(collator(first))
+//@   nopanic
+//@   ensures[C15] fresh(result) && result != nil && collator(result) == c && sorted(c, view(result))
+//@   ensures[C15] forall y U :: smem(c, view(result), y) <==> (smem(c, view(first), y) && !smem(c, view(second), y)) || (smem(c, view(second), y) && !smem(c, view(first), y))
+//@   ensures[C15] view(first) == old(view(first)) && view(second) == old(view(second))
+
+//@ func (*setClass_).Make
+//@   props C02 C15
+//@   implements SetClassLike.Make
+//@ func (*setClass_).MakeWithCollator
+//@   props C02 C15
+//@   implements SetClassLike.MakeWithCollator
+//@   ensures inv(set_, result)
+//@ func (*setClass_).MakeFromArray
+//@   props C02 C18
+//@   implements SetClassLike.MakeFromArray
+//@ func (*setClass_).MakeFromSequence
+//@   props C02 C18
+//@   implements SetClassLike.MakeFromSequence
+//@   uses smem_snoc, smem_take_all, smem_take_none, smem_empty
+//@   loop 1:
+//@     invariant snap(iterator) == old(view(values)) && 0 <= pos(iterator) && pos(iterator) <= len(snap(iterator))
+//@     invariant set != nil && fresh(set) && collator(set) != nil && sorted(collator(set), view(set)) && view(values) == old(view(values))
+//@     invariant forall y U :: smem(collator(set), view(set), y) <==> smem(collator(set), old(view(values))[0:pos(iterator)], y)
+//@     decreases len(snap(iterator)) - pos(iterator)
+
+//@ func (*setClass_).And
+//@   props C15
+//@   implements SetClassLike.And
+//@   uses smem_snoc, smem_take_all, smem_take_none, smem_empty, smem_equiv
+//@   let c := collator(first)
+//@   loop 1:
+//@     invariant snap(iterator) == old(view(first)) && 0 <= pos(iterator) && pos(iterator) <= len(snap(iterator))
+//@     invariant result != nil && fresh(result) && collator(result) == c && sorted(c, view(result))
+//@     invariant view(first) == old(view(first)) && view(second) == old(view(second)) && collator(second) == c
+//@     invariant forall y U :: smem(c, view(result), y) <==> smem(c, old(view(first))[0:pos(iterator)], y) && smem(c, old(view(second)), y)
+//@     decreases len(snap(iterator)) - pos(iterator)
+//@ func (*setClass_).Or
+//@   props C15
+//@   implements SetClassLike.Or
+//@   uses smem_empty
+//@ func (*setClass_).Sans
+//@   props C15
+//@   implements SetClassLike.Sans
+//@   uses smem_empty
+//@ func (*setClass_).Xor
+//@   props C15
+//@   implements SetClassLike.Xor
